@@ -178,3 +178,79 @@ def _kind_of(op):
 
 PROFILES = {'seq': seq}
 REPLAYS = {'seq': seq_replay}
+
+
+# ---------------------------------------------------------------------------
+# concurrent batches
+# ---------------------------------------------------------------------------
+def conc(world, seed, params):
+    from psim import conc as C
+    rng = random.Random(seed)
+    knobs = {'allocation_conflict_retry_count': rng.choice([1, 2, 3, 10])}
+    run = C.ConcRun(world, seed, params['focus'], knobs=knobs,
+                    n_batch=params.get('n_batch'))
+    findings = run.run()
+    out = {'findings': [], 'requests': run.stats['requests'],
+           'probes': run.stats['probes'], 'signatures': [], 'states': []}
+    if getattr(run, 'batch', None) is None:
+        out['probes'] = dict(out['probes'], no_batch=1)
+        return out
+    kinds = [op['kind'] for op in run.batch]
+    sig = '%s|%s|%s' % ('+'.join(kinds), run.sim.sig, run.statuses)
+    if run.switches >= len(run.batch):
+        # at least one context switch separated two transactions of one
+        # request: a genuinely interleaved execution
+        out['signatures'] = [__import__('hashlib').sha256(
+            sig.encode()).hexdigest()[:16]]
+    out['by_kind'] = {}
+    for k in kinds:
+        out['by_kind'][k] = out['by_kind'].get(k, 0) + 1
+    out['by_status'] = {}
+    for s in run.statuses:
+        out['by_status'][str(s)] = out['by_status'].get(str(s), 0) + 1
+    out['sample'] = {
+        'setup_requests': len(run.setup_ops),
+        'batch': [workload.op_brief(op) for op in run.batch],
+        'strategy': list(run.strategy) if run.strategy else None,
+        'schedule': run.sim.schedule,
+        'statuses': run.statuses,
+    }
+    for f in findings:
+        f = dict(f)
+        # signature: rule + diagnosis class when there is one (narrow and
+        # independent of the request kinds), else rule + request kinds
+        f['sig'] = '%s/%s' % (f['rule'], f.get('sig_extra') or f['kind'])
+        f['replay'] = {
+            'profile': 'conc',
+            'focus': params['focus'],
+            'knobs': knobs,
+            'setup': run.setup_ops,
+            'batch': [dict(workload.op_brief(op), kind=op['kind'])
+                      for op in run.batch],
+            'schedule': run.sim.schedule,
+            'expect': {'rule': f['rule'], 'kind': f['kind']},
+        }
+        out['findings'].append(f)
+    return out
+
+
+def conc_replay(world, rp):
+    from psim import conc as C
+    setup = []
+    for o in rp['setup']:
+        o = copy.deepcopy(o)
+        o['kind'] = _kind_of(o)
+        setup.append(o)
+    batch = []
+    for o in rp['batch']:
+        o = copy.deepcopy(o)
+        o.setdefault('kind', _kind_of(o))
+        batch.append(o)
+    run = C.ConcRun(world, 0, rp.get('focus', 'mixed'),
+                    knobs=rp.get('knobs'), setup_ops=setup, batch=batch,
+                    schedule=rp['schedule'])
+    return run.run()
+
+
+PROFILES['conc'] = conc
+REPLAYS['conc'] = conc_replay
